@@ -48,7 +48,7 @@ setup(
 '''
 
 
-def apply_once(root: Path, codemod_id: str, tool, results_path):
+def apply_once(root: Path, codemod_id: str, tool, results_path, path_include=(), path_exclude=()):
     from codemodder.context import CodemodExecutionContext
     from codemodder.project_analysis.python_repo_manager import PythonRepoManager
     from codemodder.providers import load_providers
@@ -59,7 +59,7 @@ def apply_once(root: Path, codemod_id: str, tool, results_path):
     rm = PythonRepoManager(root)
     ctx = CodemodExecutionContext(
         directory=root, dry_run=False, verbose=False, registry=reg, providers=load_providers(), repo_manager=rm,
-        path_include=[], path_exclude=[], tool_result_files_map={tool: [str(results_path)]} if tool else {}, max_workers=4)
+        path_include=list(path_include), path_exclude=list(path_exclude), tool_result_files_map={tool: [str(results_path)]} if tool else {}, max_workers=4)
     rm.parse_project()
     cm.apply(ctx)
     deps = ctx.process_dependencies(cm.id)
@@ -94,10 +94,11 @@ def main():
                 results_path.write_text(sub["results"] or "")
             rec["before"] = read_all(root)
             rec["compiles_before"] = compiles_all(root)
-            rec["pass1"] = apply_once(root, job["codemod"], sub["tool"], results_path)
+            pinc, pexc = sub.get("path_include") or (), sub.get("path_exclude") or ()
+            rec["pass1"] = apply_once(root, job["codemod"], sub["tool"], results_path, pinc, pexc)
             rec["after1"] = read_all(root)
             rec["compiles_after1"] = compiles_all(root)
-            rec["pass2"] = apply_once(root, job["codemod"], sub["tool"], results_path)
+            rec["pass2"] = apply_once(root, job["codemod"], sub["tool"], results_path, pinc, pexc)
             rec["after2"] = read_all(root)
         except Exception:
             rec["error"] = traceback.format_exc()[-3000:]
